@@ -237,12 +237,15 @@ def run(ck):
     try:
         ck.write_gen("GateTables", gate_tables.emit(gate_tables.extract(REPO)))
         ck.write_gen("CliffordTables", clifford_tables.emit(clifford_tables.extract(REPO)))
+        tables_ok = True
     except TranslateError as e:
+        # report the broken tie, then keep searching with the implementation-only oracles
         ck.violation("C09/translator", "translator no longer recognises the source: %s" % e, {"kind": "translator", "error": str(e)}, found_input=False)
-        return
-    res = ck.prove(timeout=1800)
-    if not res.ok:
-        ck.proof_violation(res)
+        tables_ok = False
+    if tables_ok:
+        res = ck.prove(timeout=1800)
+        if not res.ok:
+            ck.proof_violation(res)
     try:
         import tangelo.linq  # noqa
         from tangelo.linq import Gate, Circuit
@@ -296,7 +299,7 @@ def run(ck):
                  ("small_fn", 0, False), ("simplify_fn", 0, 100, False), ("split", 0, True), ("stack", [0, 1]), ("copy", 0), ("trim", 10)]
             hist_cases.append(h)
     # ---- exact validation in Coq
-    if eq_exprs:
+    if eq_exprs and tables_ok:
         vals = ck.coq_eval("equiv", PREAMBLE_EQ, eq_exprs, shard=20)
         st2 = ck.stream("exact-validation", "implementation's input/output gate lists interpreted and compared exactly in Q(zeta_32) "
                         "(E equal, P equal up to phase, N different)")
@@ -318,7 +321,7 @@ def run(ck):
             continue
         impl_runs.append((h, " ## ".join(steps)))
         exprs.append("run %s" % coq_list(mops))
-    model = ck.coq_eval("hist", H11.PREAMBLE, exprs, shard=20)
+    model = ck.coq_eval("hist", H11.PREAMBLE, exprs, shard=20) if tables_ok else []
     for (h, a), b in zip(impl_runs, model):
         if a != b:
             sa, sb = a.split(" ## "), b.split(" ## ")
